@@ -377,6 +377,69 @@ pub fn run_c03(ctx: &Ctx) -> i32 {
             }
         }
     });
+    // (b2) collisions below the root: a twin of a position that the second search only
+    // reaches after its first move is searched first (same placement, other en-passant
+    // state), then every "parent" from which one pawn step leads to that placement
+    {
+        let mut cases: Vec<(Pos, Pos)> = Vec::new(); // (twin searched first, parent searched second)
+        let bases = ["7k/8/8/3pPp2/8/8/8/K7 w - - 0 1", "4k3/8/8/1pPp4/8/8/8/4K3 w - - 0 1", "6k1/8/8/5pPp/8/8/8/1K6 w - - 0 1"];
+        for b in bases {
+            for mirror in [false, true] {
+                let q0 = Pos::from_fen(b).unwrap();
+                let q0 = if mirror { q0.mirror() } else { q0 };
+                // the two enemy pawns beside the capturing pawn
+                let wp = (0..64u8).find(|&s| q0.b[s as usize] == code(q0.wtm, PAWN)).unwrap();
+                let files = [file_of(wp) - 1, file_of(wp) + 1];
+                let (tr, home, mid) = if q0.wtm { (5, 6, 5) } else { (2, 1, 2) };
+                let mut twins: Vec<Pos> = vec![q0.clone()];
+                for f in files {
+                    let mut t = q0.clone();
+                    t.ep = sq_at(f, tr);
+                    if t.is_legal_position() {
+                        twins.push(t);
+                    }
+                }
+                let mut parents: Vec<Pos> = Vec::new();
+                for f in files {
+                    let cur = sq_at(f, rank_of(wp)).unwrap();
+                    for from_rank in [home, mid] {
+                        let mut p = q0.clone();
+                        p.ep = None;
+                        p.wtm = !q0.wtm;
+                        p.b[cur as usize] = EMPTY;
+                        p.b[sq_at(f, from_rank).unwrap() as usize] = code(!q0.wtm, PAWN);
+                        if p.is_legal_position() {
+                            parents.push(p);
+                        }
+                    }
+                }
+                for t in &twins {
+                    for p in &parents {
+                        cases.push((t.clone(), p.clone()));
+                    }
+                }
+            }
+        }
+        ctx.add("below_root_twin_histories", cases.len() as u64);
+        par_for(ctx, &cases, |(twin, parent), l| {
+            for d1 in [2usize, 3, 4] {
+                for d2 in [2usize, 3, 4] {
+                    let c1 = Cfg { seed: 5, depth: Some(d1), workers: Some(1), plan: None };
+                    let r1 = run_search(twin, &c1, Some(small_artifact(9, (2, 64))));
+                    l.inc("history_searches");
+                    if !check_run(ctx, "history-", twin, &c1, &r1, true, &[]) {
+                        return;
+                    }
+                    let c2 = Cfg { seed: 6, depth: Some(d2), workers: Some(1), plan: None };
+                    let r2 = run_search(parent, &c2, r1.artifact);
+                    l.inc("history_searches");
+                    if !check_run(ctx, "history-", parent, &c2, &r2, true, &[format!("{} depth {}", twin.fen(), d1)]) {
+                        return;
+                    }
+                }
+            }
+        });
+    }
     // (c) public entry point on a handful (three real threads, default-shaped table via env)
     {
         std::env::set_var("WEECHESS_VERIF_TT_MB", "1");
@@ -421,7 +484,7 @@ pub fn run_c03(ctx: &Ctx) -> i32 {
         searches,
         ctx.get("reported_lines") + ctx.get("history_searches") + schedules,
         exh,
-        &format!("{}{}", "inputs: every position of a strided complete sub-family of F3/Fcastle/Fep/Fpromo/Fmate plus the adversarial corpus x depth 1..3 (thorough 4) x seeds {0,1,VERIF_SEED} x table shapes {2x64, 1x1} x workers {1,2}; histories: for each collision placement every legal (rights subset, ep on/off, side) variant and every ordered pair (thorough: triple) of variants x depth pairs searched in sequence on one carried artifact; every reported line replayed move by move on the reference model", LOOM_RULE),
+        &format!("{}{}", "inputs: every position of a strided complete sub-family of F3/Fcastle/Fep/Fpromo/Fmate plus the adversarial corpus x depth 1..3 (thorough 4) x seeds {0,1,VERIF_SEED} x table shapes {2x64, 1x1} x workers {1,2}; histories: for each collision placement every legal (rights subset, ep on/off, side) variant and every ordered pair (thorough: triple) of variants x depth pairs searched in sequence on one carried artifact; twins below the root (a position with another en-passant state searched first, then every parent one pawn step away from that placement); every reported line replayed move by move on the reference model", LOOM_RULE),
         ASSUME,
     )
 }
